@@ -162,6 +162,11 @@ func runConc(c concCase, workers int, gate bool, jitter *rand.Rand) concOutcome 
 	}
 	doneCh := make(chan error, 1)
 	go func() {
+		defer func() {
+			if e := recover(); e != nil {
+				doneCh <- fmt.Errorf("panic in commit: %v", e) // a behaviour of the real code, compared with the one-worker run
+			}
+		}()
 		if c.Mode == "det" {
 			doneCh <- st.FastCommit(workers)
 		} else {
